@@ -6,7 +6,11 @@
 //   DescModel             : independent index of wallet scripts: descriptor id -> own expansion (Descriptor::Expand from the
 //                           descriptor STRING; never DescriptorScriptPubKeyMan's script map / next_index)
 //   ImportDescriptor      : importdescriptors-equivalent (AddWalletDescriptor [+ AddActiveScriptPubKeyMan])
-//   LoadImage             : open a copy of a wallet directory (crash image) in a fresh node through CWallet::LoadExisting
+//   PrepareImage/LoadImage: open a copy of a wallet directory (crash image) in a fresh node through CWallet::LoadExisting
+//   AppendPlan / ReadPlan : blocks a workload built, for the recovery process
+//   Records, snapshots, GroupOf / CheckGroups : record-level view of the database and the atomic-group oracle
+//   CanonicalDump         : what a wallet records, from its in-memory state (clean-restart oracle)
+//   Secret, ScanFile/Dir  : byte-pattern scan for private key material
 //   CopyDir               : recursive directory copy
 #ifndef VERIF_TARGETS_C43_WALLETLIB_H
 #define VERIF_TARGETS_C43_WALLETLIB_H
@@ -14,18 +18,31 @@
 #include <kits/walletsim.h>
 
 #include <addresstype.h>
+#include <crypto/hex_base.h>
+#include <hash.h>
 #include <key_io.h>
+#include <primitives/block.h>
 #include <script/descriptor.h>
 #include <script/signingprovider.h>
+#include <streams.h>
 #include <util/fs.h>
 #include <util/strencodings.h>
+#include <util/string.h>
+#include <util/translation.h>
+#include <wallet/db.h>
+#include <wallet/transaction.h>
+#include <wallet/types.h>
 #include <wallet/scriptpubkeyman.h>
 #include <wallet/wallet.h>
 #include <wallet/walletutil.h>
 
 #include <unistd.h>
 
+#include <algorithm>
+#include <cctype>
 #include <cstdlib>
+#include <fstream>
+#include <functional>
 #include <filesystem>
 #include <map>
 #include <memory>
@@ -170,8 +187,9 @@ inline std::optional<uint256> ImportDescriptor(wallet::CWallet& w, const std::st
     return id;
 }
 
-/** Open the wallet directory `image_dir` in `sim` (fresh node) as wallet "w". The returned WalletSim has w == nullptr if loading failed. */
-inline std::unique_ptr<WalletSim> LoadImage(ChainSim& sim, const std::string& image_dir, int keypool, bool* ok, std::string* error)
+/** Copy the wallet directory `image_dir` (crash image) into `sim`'s datadir as wallet "w". Nothing is opened yet: the caller may first
+ *  look at the database on record level (ReadImageRecords) and then calls ws->Reload(&error) (CWallet::LoadExisting). */
+inline std::unique_ptr<WalletSim> PrepareImage(ChainSim& sim, const std::string& image_dir, int keypool)
 {
     WalletSimOpts wo;
     wo.name = "w";
@@ -184,8 +202,350 @@ inline std::unique_ptr<WalletSim> LoadImage(ChainSim& sim, const std::string& im
     ws->opts.on_disk = true;
     ws->opts.unsafe_sync = true; // the recovery process itself is never crashed; hot journals are rolled back regardless of the sync mode
     ws->opts.keypool = keypool;
+    return ws;
+}
+
+inline std::unique_ptr<WalletSim> LoadImage(ChainSim& sim, const std::string& image_dir, int keypool, bool* ok, std::string* error)
+{
+    auto ws = PrepareImage(sim, image_dir, keypool);
     *ok = ws->Reload(error);
     return ws;
+}
+
+// ---------------------------------------------------------------------------------------------------------------------------------
+// Blocks built by a workload, so that the recovery process can give the wallet the same chain (as c16's plan file).
+
+inline void AppendPlan(const std::string& path, const CBlock& b)
+{
+    if (path.empty()) return;
+    DataStream ds;
+    ds << TX_WITH_WITNESS(b);
+    std::ofstream f(path, std::ios::binary | std::ios::app);
+    uint32_t n = ds.size();
+    f.write(reinterpret_cast<const char*>(&n), 4);
+    f.write(reinterpret_cast<const char*>(ds.data()), ds.size());
+}
+
+inline std::vector<std::shared_ptr<CBlock>> ReadPlan(const std::string& path)
+{
+    std::vector<std::shared_ptr<CBlock>> out;
+    std::ifstream f(path, std::ios::binary);
+    while (f) {
+        uint32_t n;
+        if (!f.read(reinterpret_cast<char*>(&n), 4)) break;
+        std::vector<std::byte> buf(n);
+        if (!f.read(reinterpret_cast<char*>(buf.data()), n)) break;
+        DataStream ds{buf};
+        auto b = std::make_shared<CBlock>();
+        ds >> TX_WITH_WITNESS(*b);
+        out.push_back(b);
+    }
+    return out;
+}
+
+// ---------------------------------------------------------------------------------------------------------------------------------
+// Record level: the (key, value) rows of the wallet database, read through a plain cursor (no CWallet involved). Snapshots taken by a
+// workload at quiescent points are compared with the rows of a crash image: the atomicity oracle of C43 / C42.
+
+using Records = std::map<std::string, std::string>; //!< hex(key) -> hex(value)
+
+inline bool DumpRecords(wallet::WalletDatabase& db, Records& out)
+{
+    out.clear();
+    auto batch = db.MakeBatch();
+    if (!batch) return false;
+    auto cursor = batch->GetNewCursor();
+    if (!cursor) return false;
+    while (true) {
+        DataStream k, v;
+        auto status = cursor->Next(k, v);
+        if (status == wallet::DatabaseCursor::Status::DONE) break;
+        if (status == wallet::DatabaseCursor::Status::FAIL) return false;
+        out[HexStr(std::span<const std::byte>(k.data(), k.size()))] = HexStr(std::span<const std::byte>(v.data(), v.size()));
+    }
+    return true;
+}
+
+/** Rows of the wallet database in directory `dir` (opened like the wallet opens it: a hot journal is rolled back). */
+inline bool ReadImageRecords(const fs::path& dir, Records& out, std::string* error)
+{
+    wallet::DatabaseOptions dbo;
+    dbo.require_existing = true;
+    dbo.require_format = wallet::DatabaseFormat::SQLITE;
+    dbo.use_unsafe_sync = true;
+    wallet::DatabaseStatus status;
+    bilingual_str err;
+    auto db = wallet::MakeDatabase(dir, dbo, status, err);
+    if (!db) { if (error) *error = err.original; return false; }
+    bool ok = DumpRecords(*db, out);
+    if (!ok && error) *error = "cursor failed";
+    return ok;
+}
+
+inline void WriteSnapshot(const std::string& path, const Records& r)
+{
+    std::ofstream f(path, std::ios::trunc);
+    for (const auto& [k, v] : r) f << k << " " << v << "\n";
+}
+
+inline bool ReadSnapshot(const std::string& path, Records& r)
+{
+    r.clear();
+    std::ifstream f(path);
+    if (!f) return false;
+    std::string k, v, line;
+    while (std::getline(f, line)) {
+        auto sp = line.find(' ');
+        if (sp == std::string::npos) { if (!line.empty()) r[line] = ""; continue; }
+        r[line.substr(0, sp)] = line.substr(sp + 1);
+    }
+    return true;
+}
+
+/** Decoded head of a record key: the type string and, for descriptor records, the descriptor id (hex of the 32 serialized bytes). */
+struct RecKey {
+    std::string type;
+    std::string id_hex;   //!< next 32 bytes after the type (descriptor id / txid), if present
+    std::string rest_hex; //!< everything after the type
+};
+
+inline RecKey ParseKey(const std::string& hexkey)
+{
+    RecKey k;
+    auto raw = ParseHex(hexkey);
+    if (raw.empty() || raw[0] >= 253 || raw.size() < size_t(1 + raw[0])) return k;
+    k.type.assign(raw.begin() + 1, raw.begin() + 1 + raw[0]);
+    k.rest_hex = HexStr(std::span<const unsigned char>(raw.data() + 1 + raw[0], raw.size() - 1 - raw[0]));
+    if (k.rest_hex.size() >= 64) k.id_hex = k.rest_hex.substr(0, 64);
+    return k;
+}
+
+inline std::set<std::string> DescriptorIds(const Records& r)
+{
+    std::set<std::string> ids;
+    for (const auto& [k, v] : r) { RecKey rk = ParseKey(k); if (rk.type == "walletdescriptor") ids.insert(rk.id_hex); }
+    return ids;
+}
+
+/** Atomic group a changed record belongs to, for an operation of kind `op` ("" = the statement promises nothing for this record).
+ *  The groups are the database transactions the statement lists: descriptor setup (all records of the newly generated descriptors and
+ *  the active-descriptor pointers), encryption (master key + every private key record of the existing descriptors), keypool top-up
+ *  (per descriptor: cache items + range), transaction removal, address-book removal. */
+inline std::string GroupOf(const RecKey& k, const std::string& op, const std::set<std::string>& ids_before)
+{
+    const bool desc_meta = k.type == "walletdescriptor" || k.type == "walletdescriptorcache" || k.type == "walletdescriptorlhcache";
+    const bool desc_key = k.type == "walletdescriptorkey" || k.type == "walletdescriptorckey";
+    if (op == "encrypt" || op == "create-generated") {
+        if (k.type == "mkey") return op == "encrypt" ? "encrypt" : "";
+        const bool is_new = !ids_before.count(k.id_hex);
+        if (desc_key) return is_new ? "setup" : (op == "encrypt" ? "encrypt" : "");
+        if (desc_meta) return is_new ? "setup" : "";
+        if (k.type == "activeexternalspk" || k.type == "activeinternalspk") return "setup";
+        return "";
+    }
+    if (op == "topup") return desc_meta ? "topup:" + k.id_hex.substr(0, 16) : "";
+    if (op == "removetxs") return (k.type == "tx" || k.type == "wtxvariant") ? "removetxs" : "";
+    if (op == "deladdr") return (k.type == "name" || k.type == "purpose" || k.type == "destdata") ? "deladdr" : "";
+    return "";
+}
+
+struct GroupVerdict {
+    bool ok{true};
+    std::string why;
+    int groups{0}, keys{0}, present{0}, absent{0}; //!< groups found entirely in the after-state / entirely in the before-state
+};
+
+/** Every atomic group of the operation must appear in `R` entirely as in `A` (absent) or entirely as in `B` (present). */
+inline GroupVerdict CheckGroups(const Records& A, const Records& B, const Records& R, const std::string& op)
+{
+    GroupVerdict gv;
+    const std::set<std::string> ids_before = DescriptorIds(A);
+    std::map<std::string, std::vector<std::string>> groups; // label -> changed keys
+    auto get = [](const Records& m, const std::string& k) -> const std::string* { auto it = m.find(k); return it == m.end() ? nullptr : &it->second; };
+    auto same = [](const std::string* a, const std::string* b) { return (!a && !b) || (a && b && *a == *b); };
+    std::set<std::string> all;
+    for (auto& [k, v] : A) all.insert(k);
+    for (auto& [k, v] : B) all.insert(k);
+    for (const std::string& k : all) {
+        if (same(get(A, k), get(B, k))) continue;
+        std::string g = GroupOf(ParseKey(k), op, ids_before);
+        if (!g.empty()) groups[g].push_back(k);
+    }
+    for (auto& [g, keys] : groups) {
+        gv.groups++;
+        gv.keys += keys.size();
+        size_t as_a = 0, as_b = 0;
+        std::string odd;
+        for (auto& k : keys) {
+            const bool ea = same(get(R, k), get(A, k)), eb = same(get(R, k), get(B, k));
+            as_a += ea; as_b += eb;
+            if (!ea && !eb && odd.empty()) odd = k;
+        }
+        if (as_b == keys.size()) { gv.present++; continue; }
+        if (as_a == keys.size()) { gv.absent++; continue; }
+        gv.ok = false;
+        std::string first_a, first_b;
+        for (auto& k : keys) {
+            if (first_b.empty() && same(get(R, k), get(B, k)) && !same(get(R, k), get(A, k))) first_b = k;
+            if (first_a.empty() && same(get(R, k), get(A, k)) && !same(get(R, k), get(B, k))) first_a = k;
+        }
+        gv.why = "atomic group '" + g + "' of operation '" + op + "' is partially applied: " + util::ToString(keys.size()) + " changed records, " +
+                 util::ToString(as_b) + " as after, " + util::ToString(as_a) + " as before; e.g. already applied: " + ParseKey(first_b).type + " " + first_b.substr(0, 96) +
+                 " | still old: " + ParseKey(first_a).type + " " + first_a.substr(0, 96) + (odd.empty() ? "" : " | neither: " + odd.substr(0, 96));
+        return gv;
+    }
+    return gv;
+}
+
+// ---------------------------------------------------------------------------------------------------------------------------------
+// Canonical dump of what a wallet records, from its in-memory state through public members only (C43, clean-restart clause).
+
+inline std::string StateStr(const wallet::CWalletTx& wtx) { return wallet::TxStateString(wtx.m_state); }
+
+inline std::vector<std::string> CanonicalDump(wallet::CWallet& w)
+{
+    std::vector<std::string> out;
+    LOCK(w.cs_wallet);
+    out.push_back(strprintf("flags %x", w.GetWalletFlags()));
+    out.push_back(strprintf("encrypted %d", int(w.HasEncryptionKeys())));
+    for (const auto& [id, mk] : w.mapMasterKeys) {
+        out.push_back(strprintf("mkey %u salt=%s crypted=%s method=%u iter=%u", id, HexStr(mk.vchSalt), HexStr(mk.vchCryptedKey), mk.nDerivationMethod, mk.nDeriveIterations));
+    }
+    out.push_back(strprintf("orderposnext %d", w.nOrderPosNext));
+    out.push_back(strprintf("bestblock %d %s", w.GetLastBlockHeight(), w.GetLastBlockHash().ToString()));
+    // descriptors
+    std::map<uint256, std::string> descs;
+    for (auto* spkm : w.GetAllScriptPubKeyMans()) {
+        auto* d = dynamic_cast<wallet::DescriptorScriptPubKeyMan*>(spkm);
+        if (!d) { descs[spkm->GetID()] = "non-descriptor spkm"; continue; }
+        std::string pub, priv;
+        const bool have_pub = d->GetDescriptorString(pub, /*priv=*/false);
+        wallet::WalletDescriptor wd = WITH_LOCK(d->cs_desc_man, return d->GetWalletDescriptor());
+        std::string line = strprintf("desc %s created=%d range=[%d,%d) next=%d privkeys=%d crypted=%d", have_pub ? pub : wd.descriptor->ToString(), wd.creation_time,
+                                     wd.range_start, wd.range_end, wd.next_index, int(d->HavePrivateKeys()), int(d->HaveCryptedKeys()));
+        if (!w.HasEncryptionKeys() && d->HavePrivateKeys() && d->GetDescriptorString(priv, /*priv=*/true)) line += " priv=" + priv;
+        // the script set the descriptor watches (sorted): the persisted cache must regenerate exactly these
+        std::vector<std::string> spks;
+        for (const CScript& spk : d->GetScriptPubKeys()) spks.push_back(HexStr(spk));
+        std::sort(spks.begin(), spks.end());
+        HashWriter hw;
+        for (auto& x : spks) hw << x;
+        line += strprintf(" scripts=%u:%s", spks.size(), hw.GetHash().ToString().substr(0, 16));
+        std::string slots;
+        for (OutputType t : ALL_TYPES) for (bool internal : {false, true}) if (w.GetScriptPubKeyMan(t, internal) == spkm) slots += strprintf(" active(%s,%s)", TypeName(t), internal ? "int" : "ext");
+        descs[d->GetID()] = line + slots;
+    }
+    for (auto& [id, line] : descs) out.push_back(line);
+    // transactions
+    std::map<Txid, std::string> txs;
+    for (const auto& [txid, wtx] : w.mapWallet) {
+        std::string line = strprintf("wtx %s wtxid=%s state=%s received=%u smart=%u pos=%d", txid.ToString(), wtx.GetWitnessHash().ToString().substr(0, 16), StateStr(wtx),
+                                     wtx.nTimeReceived, wtx.nTimeSmart, wtx.nOrderPos);
+        line += strprintf(" variants=%u", wtx.GetTxs().size());
+        if (wtx.m_comment) line += " comment=" + *wtx.m_comment;
+        if (wtx.m_comment_to) line += " to=" + *wtx.m_comment_to;
+        if (wtx.m_replaces_txid) line += " replaces=" + wtx.m_replaces_txid->ToString();
+        if (wtx.m_replaced_by_txid) line += " replaced_by=" + wtx.m_replaced_by_txid->ToString();
+        for (auto& m : wtx.m_messages) line += " msg=" + m;
+        txs[txid] = line;
+    }
+    for (auto& [id, line] : txs) out.push_back(line);
+    // address book
+    std::map<std::string, std::string> book;
+    for (const auto& [dest, data] : w.m_address_book) {
+        std::string line = "addr " + EncodeDestination(dest) + (data.label ? " label='" + *data.label + "'" : " <change>");
+        if (data.purpose) line += " purpose=" + wallet::PurposeToString(*data.purpose);
+        if (data.previously_spent) line += " previously_spent";
+        for (auto& [id, val] : data.receive_requests) line += " rr[" + id + "]=" + val;
+        book[EncodeDestination(dest)] = line;
+    }
+    for (auto& [a, line] : book) out.push_back(line);
+    // persistently locked coins (non-persistent locks are documented not to survive a restart)
+    for (const auto& [coin, persistent] : w.m_locked_coins) if (persistent) out.push_back("locked " + coin.ToString());
+    return out;
+}
+
+inline std::string FirstDifference(const std::vector<std::string>& a, const std::vector<std::string>& b)
+{
+    std::set<std::string> sa(a.begin(), a.end()), sb(b.begin(), b.end());
+    for (auto& x : a) if (!sb.count(x)) return "before restart: [" + x.substr(0, 400) + "] is missing afterwards" + [&] { for (auto& y : b) if (!sa.count(y) && y.substr(0, 12) == x.substr(0, 12)) return "; afterwards: [" + y.substr(0, 400) + "]"; return std::string(); }();
+    for (auto& y : b) if (!sa.count(y)) return "after restart: [" + y.substr(0, 400) + "] was not there before";
+    return "";
+}
+
+// ---------------------------------------------------------------------------------------------------------------------------------
+// Secret scanning (C42)
+
+struct Secret {
+    std::string what;                  //!< e.g. "raw key of wpkh(WIF)", "WIF", "tprv string"
+    std::vector<unsigned char> bytes;  //!< byte pattern
+};
+
+inline void AddKeyForms(std::vector<Secret>& out, const CKey& key, const std::string& owner)
+{
+    std::vector<unsigned char> raw(UCharCast(key.begin()), UCharCast(key.end()));
+    out.push_back({"raw 32-byte private key of " + owner, raw});
+    const std::string hex = HexStr(raw);
+    out.push_back({"hex private key of " + owner, std::vector<unsigned char>(hex.begin(), hex.end())});
+    const std::string wif = EncodeSecret(key);
+    out.push_back({"WIF private key of " + owner, std::vector<unsigned char>(wif.begin(), wif.end())});
+}
+
+inline void AddExtKeyForms(std::vector<Secret>& out, const CExtKey& xk, const std::string& owner)
+{
+    AddKeyForms(out, xk.key, owner);
+    const std::string b58 = EncodeExtKey(xk);
+    out.push_back({"base58 extended private key of " + owner, std::vector<unsigned char>(b58.begin(), b58.end())});
+    unsigned char code[BIP32_EXTKEY_SIZE];
+    xk.Encode(code);
+    // xprv payload: chain code || 0x00 || key (the last 65 bytes of the 74-byte BIP32 serialization)
+    out.push_back({"BIP32 payload (chaincode||00||key) of " + owner, std::vector<unsigned char>(code + 9, code + BIP32_EXTKEY_SIZE)});
+}
+
+/** Extended private keys / WIF keys that appear in a private descriptor string. */
+inline void AddSecretsOfDescriptorString(std::vector<Secret>& out, const std::string& priv_desc)
+{
+    size_t i = 0;
+    auto is_b58 = [](char c) { return std::isalnum(static_cast<unsigned char>(c)) && c != '0' && c != 'O' && c != 'I' && c != 'l'; };
+    while (i < priv_desc.size()) {
+        if (!is_b58(priv_desc[i])) { ++i; continue; }
+        size_t j = i;
+        while (j < priv_desc.size() && is_b58(priv_desc[j])) ++j;
+        const std::string tok = priv_desc.substr(i, j - i);
+        i = j;
+        if (tok.size() < 50) continue;
+        CExtKey xk = DecodeExtKey(tok);
+        if (xk.key.IsValid()) { AddExtKeyForms(out, xk, "descriptor " + priv_desc.substr(0, 12) + ".."); continue; }
+        CKey k = DecodeSecret(tok);
+        if (k.IsValid()) AddKeyForms(out, k, "descriptor " + priv_desc.substr(0, 12) + "..");
+    }
+}
+
+/** First secret found in the bytes of `file`, or "" if none. */
+inline std::string ScanFile(const fs::path& file, const std::vector<Secret>& secrets)
+{
+    std::ifstream f(file, std::ios::binary);
+    if (!f) return "";
+    std::vector<unsigned char> data((std::istreambuf_iterator<char>(f)), std::istreambuf_iterator<char>());
+    for (const Secret& s : secrets) {
+        if (s.bytes.empty()) continue;
+        auto it = std::search(data.begin(), data.end(), s.bytes.begin(), s.bytes.end());
+        if (it != data.end()) return s.what + " at offset " + util::ToString(it - data.begin()) + " of " + fs::PathToString(file.filename()) + " (" + util::ToString(data.size()) + " bytes)";
+    }
+    return "";
+}
+
+inline std::string ScanDir(const fs::path& dir, const std::vector<Secret>& secrets, const std::function<bool(const std::string&)>& want = nullptr)
+{
+    std::vector<fs::path> files;
+    for (auto& e : std::filesystem::directory_iterator(dir)) if (e.is_regular_file()) files.push_back(e.path());
+    std::sort(files.begin(), files.end());
+    for (auto& p : files) {
+        if (want && !want(fs::PathToString(p.filename()))) continue;
+        std::string hit = ScanFile(p, secrets);
+        if (!hit.empty()) return hit;
+    }
+    return "";
 }
 
 } // namespace wl
